@@ -38,6 +38,7 @@ class PolarizedRays(RealRays):
 
         self.p = np.tile(np.eye(3), (self.x.size, 1, 1))
         self._i0 = intensity.copy()
+        self._i_scalar = None
         self._L0 = L.copy()
         self._M0 = M.copy()
         self._N0 = N.copy()
@@ -60,10 +61,15 @@ class PolarizedRays(RealRays):
         Args:
             state (PolarizationState): The polarization state of the ray.
         """
+        # losses accumulated during the trace that are not in the polarization
+        # matrix (aperture clipping, absorption, non-polarizing coatings)
+        if self._i_scalar is None:
+            self._i_scalar = np.copy(self.i)
+
         if state.is_polarized:
             E0 = self._get_3d_electric_field(state)
             E1 = self.get_output_field(E0)
-            self.i = np.sum(np.abs(E1)**2, axis=1)
+            self.i = np.sum(np.abs(E1)**2, axis=1) * self._i_scalar
         else:
             # Local x-axis field
             state_x = PolarizationState(is_polarized=True, Ex=1.0, Ey=0.0,
@@ -80,7 +86,7 @@ class PolarizedRays(RealRays):
             # average two orthogonal polarizations to get mean intensity,
             # scale by initial ray intensity
             self.i = (np.sum(np.abs(E1_x)**2, axis=1) +
-                      np.sum(np.abs(E1_y)**2, axis=1)) * self._i0 / 2
+                      np.sum(np.abs(E1_y)**2, axis=1)) * self._i_scalar / 2
 
     def update(self, jones_matrix: np.ndarray = None):
         """
